@@ -50,11 +50,13 @@ pub struct Scope {
     pub k: usize,
     /// keep only one representative per renaming of terminals and non-start nonterminals
     pub symmetry: bool,
+    /// keep only grammars with a derivation cycle A =>+ A (the class of the known finding D12)
+    pub only_cyclic: bool,
 }
 
 impl Scope {
     pub fn name(&self) -> String {
-        format!("G({},{},{},{}){}", self.n, self.t, self.p, self.k, if self.symmetry { "/sym" } else { "" })
+        format!("G({},{},{},{}){}{}", self.n, self.t, self.p, self.k, if self.symmetry { "/sym" } else { "" }, if self.only_cyclic { "/cyclic" } else { "" })
     }
 }
 
@@ -108,7 +110,7 @@ pub fn for_each_completion(sc: &Scope, rhss: &[Vec<Sym>], fixed: &[Vec<usize>], 
     fn rec(sc: &Scope, rhss: &[Vec<Sym>], nt: usize, left: usize, acc: &mut Vec<(u8, Vec<Sym>)>, f: &mut dyn FnMut(Grammar)) {
         if nt == sc.n {
             let g = Grammar { n: sc.n, t: sc.t, prods: acc.clone() };
-            if !sc.symmetry || is_canonical(&g) {
+            if (!sc.symmetry || is_canonical(&g)) && (!sc.only_cyclic || crate::refgram::has_derivation_cycle(&g)) {
                 f(g);
             }
             return;
@@ -229,6 +231,8 @@ pub fn seeds() -> Vec<(&'static str, Grammar)> {
             (2, vec![]), (2, vec![n(3)]),
             (3, vec![n(0)]), (3, vec![n(3), t(5), n(0)]),
         ])),
+        // the smallest witness of the known finding D12: a derivation cycle whose conflict is hidden by a useless nonterminal
+        ("cyclic-hidden", g(3, 1, vec![(0, vec![n(1), n(0), n(2)]), (1, vec![n(1)]), (1, vec![t(0)])])),
         ("unitlike", g(2, 2, vec![(0, vec![]), (0, vec![t(0)]), (0, vec![t(1)]), (0, vec![t(0), n(1)]), (1, vec![t(0)]), (1, vec![t(1)])])),
     ]
 }
